@@ -316,7 +316,9 @@ func checkC05(ops []bop, variant int, level c05Level) error {
 	}
 	commits := make([]commit.Commit, 0, len(blocks))
 	for i, b := range blocks {
-		cm := commit.Commit{ID: uint64(1000 + i), Chunk: commit.Chunk(b), Updates: []*commit.Buffer{buf, sparse, other}}
+		// IDs only grow per BLOCK (they are drawn under the block latch); across blocks a log may well hold a
+		// larger ID before a smaller one. Every commit here is for another block: descending IDs are legitimate.
+		cm := commit.Commit{ID: uint64(50000 - 3*i), Chunk: commit.Chunk(b), Updates: []*commit.Buffer{buf, sparse, other}}
 		commits = append(commits, cm)
 		var w bytes.Buffer
 		if _, err := cm.WriteTo(&w); err != nil {
